@@ -17,7 +17,7 @@ import (
 func init() {
 	register(&propDef{
 		ID:          "C03",
-		Explanation: "Decides that the escaping tables and the routing into them are complete and correctly selected — not the behaviour of a JavaScript engine on the output: R1 the replacement tables applied inside string literals (the per-call table, the low-unicode table and the explicit switch arms of the escaper, all constant-evaluated from the source) map every code point of the required set — U+0000–U+001F, \" ' ` \\, < > &, / (a value starting with /script after a literal < in the author's own script text would otherwise end the element), U+2028, U+2029 and $ (the template-literal interpolation opener, because backtick literals use the same escaper) — to a replacement that does not contain the code point and is an escape of that same code point; R2 no non-test code in the module calls SetEscapeHTML, so every JSON encoder feeding a script position keeps encoding/json's HTML-safe escaping; R3 in SafeScript/SafeScriptInline the function name is used only after the name-pattern test replaced invalid names by a constant, the pattern's alphabet is within [$_a-zA-Z0-9.], every argument is written as jsonEncodeParam(arg) (and through the HTML escaper for the attribute form), JSFuncCall uses SafeScript and JSUnsafeFuncCall HTML-escapes its call; R4 the generator emits the in-literal escaper exactly on the branch where the script content is marked InsideStringLiteral, the sink writes the variable defined by that call, and the parser passes `delimiter != none` as that mark with the three JS quote characters as delimiters, and the script character reader has an alternative `\\`+any rune ahead of its catch-all (a backslash and the next character are one unit, so an escaped delimiter does not end the literal in the parser's view); R5 in the runtime selector both in-literal returns go through the replacement table and the bare return is the JSON encoding. R6 in the JSON script element (the function that writes a constant `<script` opener and hands its data to a json.Encoder) every write is a constant, an HTML-escaped attribute value or that encoder's output, so no already-encoded value (json.RawMessage, string) bypasses encoding/json's escaping of < > & U+2028 U+2029. NOT decided: that evaluating the emitted JavaScript yields an equal value; the parser's quote tracking on arbitrary JS (regex literals, comments in strings). R4 also: the script encoder is chosen per Go value from the literal state at that value, not once per element.",
+		Explanation: "Decides that the escaping tables and the routing into them are complete and correctly selected — not the behaviour of a JavaScript engine on the output: R1 the replacement tables applied inside string literals (the per-call table, the low-unicode table and the explicit switch arms of the escaper, all constant-evaluated from the source) map every code point of the required set — U+0000–U+001F, \" ' ` \\, < > &, / (a value starting with /script after a literal < in the author's own script text would otherwise end the element), U+2028, U+2029 and $ (the template-literal interpolation opener, because backtick literals use the same escaper) — to a replacement that does not contain the code point and is an escape of that same code point; R2 no non-test code in the module calls SetEscapeHTML, so every JSON encoder feeding a script position keeps encoding/json's HTML-safe escaping; R3 in SafeScript/SafeScriptInline the function name is used only after the name-pattern test replaced invalid names by a constant, the pattern's alphabet is within [$_a-zA-Z0-9.], every argument is written as jsonEncodeParam(arg) (and through the HTML escaper for the attribute form), JSFuncCall uses SafeScript and JSUnsafeFuncCall HTML-escapes its call; R4 the generator emits the in-literal escaper exactly on the branch where the script content is marked InsideStringLiteral, the sink writes the variable defined by that call, and the parser passes `delimiter != none` as that mark with the three JS quote characters as delimiters, and the script character reader has an alternative `\\`+any rune ahead of its catch-all (a backslash and the next character are one unit, so an escaped delimiter does not end the literal in the parser's view); R5 in the runtime selector both in-literal returns go through the replacement table and the bare return is the JSON encoding. R6 in the JSON script element (the function that writes a constant `<script` opener and hands its data to a json.Encoder) every write is a constant, an HTML-escaped attribute value or that encoder's output, so no already-encoded value (json.RawMessage, string) bypasses encoding/json's escaping of < > & U+2028 U+2029. NOT decided: that evaluating the emitted JavaScript yields an equal value; the parser's quote tracking on arbitrary JS (regex literals, comments in strings). R4 also: the script encoder is chosen per Go value from the literal state at that value, not once per element. R4 also: every emission path of a script-value emitter that writes a variable into the script has defined that variable with a ScriptContent… call on the same path (no result kept from another position of the element). R3 also accepts arguments that a module function encoded into a slice, element by element. R6 also counts calls of pure write helpers as writes of their arguments.",
 		Assumptions: []string{"encoding/json escapes < > & U+2028 U+2029 unless SetEscapeHTML(false)", "a JS engine decodes \\uXXXX, \\t \\n \\f \\r \\\\ \\/ inside string and template literals to the named code point"},
 		Trusted:     []string{"go/types", "go/parser", "x/tools go/packages, go/ssa", "encoding/json", "regexp/syntax"},
 		Run:         runC03,
@@ -755,12 +755,29 @@ func runC03(c *Ctx) {
 	n := g.names()
 	if n.ok {
 		cnt := 0
+		// the emitters of script Go values: functions some emission path of which calls ScriptContent…
+		scriptEmitters := map[*GFunc]bool{}
+		g.forEachEmittedCall(func(gf *GFunc, sk *Skeleton, call *ast.CallExpr) {
+			if strings.Contains(sk.Src, "templruntime.ScriptContent") {
+				scriptEmitters[gf] = true
+			}
+		})
+		reused := map[*GFunc]bool{}
 		g.forEachEmittedCall(func(gf *GFunc, sk *Skeleton, call *ast.CallExpr) {
 			se, ok := call.Fun.(*ast.SelectorExpr)
 			if !ok || types.ExprString(se.X) != n.Buf || se.Sel.Name != "WriteString" || len(call.Args) != 1 {
 				return
 			}
 			if !strings.Contains(sk.Src, "templruntime.ScriptContent") {
+				// a path of a script-value emitter that writes a variable into the script WITHOUT having computed it
+				// with ScriptContent… on this path: a result kept from an earlier position of the element, encoded for
+				// that position's literal state, not this one's
+				if scriptEmitters[gf] && !reused[gf] {
+					if class, why := classifyBufferSink(call.Args[0], sk, n); class == "unescaped" {
+						reused[gf] = true
+						c.viol("C03.R4", gf.Key+"|script-sink-computed-on-its-own-path", c.pos(gf.Decl.Pos()), gf.Name+": an emission path writes a variable into the script that this path did not define with a ScriptContent… call ("+why+"): a value encoded once is reused at another position of the element — encoded for a string literal and written bare, or the reverse, it breaks out of (or into) the literal")
+					}
+				}
 				return
 			}
 			class, why := classifyBufferSink(call.Args[0], sk, n)
